@@ -1,7 +1,7 @@
 """
 C08 - interpolants reproduce their data (SplineInterpolator1D / SplineInterpolator2D).
 
-Proof: Props/C08.v (InterpModel.v / InterpTheory.v / InterpQc.v on top of the spline model of C07).
+Proof: Props/C08.v (InterpModel.v / InterpTheory.v / Interp2D.v / InterpQc.v on top of the spline model of C07).
 
 Tie.  spline_interpolators.py and splines.py are numpy/scipy-level code (LAPACK, SuperLU): they are run
 as they are, on binary64, and every double they produce (knots, Greville points, collocation matrix,
@@ -630,7 +630,7 @@ def check_2d(chk, c, r, m, stats):
                       '2-D code coefficients differ from the exact ones by %.3g (bound %.3g) although the data are reproduced: '
                       'correspondence InterpModel.ip_interp2d no longer checks (%s)' % (err, bound_c, tag),
                       dict(rep, kind='correspondence', theorem='InterpModel.ip_interp2d'), no_input=True)
-    # the model's own interpolant reproduces the data exactly (what interp2d_exact would state; not proved)
+    # the model's own interpolant reproduces the data exactly (c08_interp2d_exact on the instance)
     if True:
         for i in range(n1):
             rowv = [sum(B1[i][a2] * Wm[a2][b] for a2 in range(s1['ncoef'])) for b in range(s2['ncoef'])]
@@ -735,8 +735,6 @@ def run_all(chk):
 
 
 UNCOVERED = [
-    'interp2d_exact (2-D interpolant takes the data values on the tensor grid) is not proved: exact differential only '
-    '(model = code within the bound, and the model\'s own 2-D interpolant reproduces the data exactly on every tested space)',
     'polynomials of degree 1..p are reproduced everywhere on clamped spaces: proved for degree 0 only '
     '(c08_interp1d_const + c08_const_spline); degrees 1..5 tested exactly on the model and within the bound on the code',
     'non-singularity of the collocation matrix for all admissible spaces (Schoenberg-Whitney) is not formalised: theorems that '
